@@ -397,7 +397,7 @@ func genRouterCase(r *Rng) (int, int, []routerStep) {
 		return &mocrelay.Event{ID: fmt.Sprintf("e7%062d", nev+1000*r.Intn(1000)), Pubkey: pick(r, authors), CreatedAt: int64(r.Range(1, 50)), Kind: int64(r.Range(1, 3)),
 			Tags: tags, Content: "x", Sig: ""}
 	}
-	subs := []string{"a", "b", "c", "d"}
+	subs := []string{"a", "b", "c", "d", ""}
 	var steps []routerStep
 	stalled := map[int]bool{}
 	finished := map[int]bool{}
@@ -461,9 +461,78 @@ func genRouterCase(r *Rng) (int, int, []routerStep) {
 	return n, buflen, steps
 }
 
+// runRouterPublisherGone: one connection S holds a match-all subscription and keeps reading; many publisher
+// connections each hand over ONE event and are gone at once (their context is already cancelled when the router looks
+// at them).  The router may or may not take such an event; when the publisher was told OK, the event was published,
+// and S — open and matching at that moment, with room in its queue — must receive it.
+func runRouterPublisherGone(trials int) {
+	router := mocrelay.NewRouterHandler(64)
+	sctx, scancel := context.WithCancel(context.Background())
+	ssend := make(chan mocrelay.ServerMsg, 4096)
+	srecv := make(chan mocrelay.ClientMsg)
+	sdone := make(chan error, 1)
+	go func() { sdone <- router.ServeNostr(sctx, ssend, srecv) }()
+	srecv <- &mocrelay.ClientReqMsg{SubscriptionID: "s", ReqFilters: []*mocrelay.ReqFilter{{}}}
+	select { // its EOSE: the subscription is registered
+	case <-ssend:
+	case <-time.After(5 * time.Second):
+	}
+	g := &EvGen{r: NewRng(uint64(trials))}
+	var told []string // events whose publisher got an accepting OK
+	for i := 0; i < trials; i++ {
+		e := g.Event()
+		e.Kind, e.Tags = 1, nil
+		pctx, pcancel := context.WithCancel(context.Background())
+		psend := make(chan mocrelay.ServerMsg, 4)
+		precv := make(chan mocrelay.ClientMsg, 1)
+		precv <- &mocrelay.ClientEventMsg{Event: e}
+		pcancel()
+		router.ServeNostr(pctx, psend, precv)
+		for len(psend) > 0 {
+			if ok, isOK := (<-psend).(*mocrelay.ServerOKMsg); isOK && ok.Accepted && ok.EventID == e.ID {
+				told = append(told, e.ID)
+			}
+		}
+	}
+	got := map[string]bool{}
+	deadline := time.After(2 * time.Second)
+	allIn := func() bool {
+		for _, id := range told {
+			if !got[id] {
+				return false
+			}
+		}
+		return true
+	}
+collect:
+	for !allIn() {
+		select {
+		case m := <-ssend:
+			if em, ok := m.(*mocrelay.ServerEventMsg); ok {
+				got[em.Event.ID] = true
+			}
+		case <-deadline:
+			break collect
+		}
+	}
+	missing := []any{}
+	for _, id := range told {
+		if !got[id] {
+			missing = append(missing, id)
+		}
+	}
+	scancel()
+	select {
+	case <-sdone:
+	case <-time.After(5 * time.Second):
+	}
+	emit(M{"op": "routergone", "trials": trials, "out": M{"told": len(told), "missing": missing}})
+}
+
 func init() {
 	props["router"] = propRunner{
 		gen: func(r *Rng, n int, tier string) {
+			runRouterPublisherGone(400)
 			for i := 0; i < n && routerBlockedCases < 4; i++ {
 				k, b, steps := genRouterCase(r)
 				runRouterCase(k, b, steps)
@@ -471,6 +540,12 @@ func init() {
 		},
 		replay: func(lines []replayLine) {
 			for _, l := range lines {
+				if l["op"] == "routergone" {
+					for k := 0; k < 4; k++ { // scheduling-dependent: the replay repeats the scenario
+						runRouterPublisherGone(int(jnum(l["trials"])))
+					}
+					continue
+				}
 				if l["op"] != "router" {
 					continue
 				}
